@@ -21,6 +21,13 @@ Entry points: `gen_xsd_schema.build_schema(m, c_c)` (the ElementTree element) an
      name makes `main` exit with status 1 and write nothing.
   K  the same canonical trees from the Lean model: `xsd d`, `xsd (applyXEdits es d)` and
      `render (specEdits (xresolveAll d es) (xsdSpec d))`.
+
+Family session (patterns memoisation / aliasing / routes / two of a kind): ONE loaded population - build_schema and main for
+one component, then schemas of other components interleaved with edits of the population, mk_component (the SQL route) on the
+same population and scribbling over the tree returned last, at the end the first component again by both routes; diagrams
+with two classes of the same key letters in different components and twin identifiers.  D: every schema equals the
+specification of the population as edited so far (main: of the file), build_schema leaves the population unchanged.
+K: `xsd (applyXEdits es d)` per step.
 """
 import hashlib
 import itertools
@@ -41,7 +48,9 @@ RULE = ('random class diagrams as for C14, every second one with XML-special / n
         'attribute to each data type, add a base / derived / referential / unsupported attribute to each class, add an '
         'enumerator, every permutation of the enumerators, add a user type of each base in each container, move each '
         'class to each container) and random scripts; plus same-named data types in different scopes (a type of the component named like a global one, of another kind) with edits on the inner one, and classes whose attributes are only partly on the R103 chain; plus the WRITTEN FILE character by character: for every third diagram (rows in modeled order, so the document order is defined) the text written by main equals the specified text (one element per line, four blanks per level, attribute order, the four replacements of minidom). Non-trivial: the component contains a class with a declared '
-        'attribute and, if there are edits, they change the tree; distinct = distinct case content')
+        'attribute and, if there are edits, they change the tree; distinct = distinct case content; plus sessions: 4-14 schemas '
+        'by both routes from ONE loaded population interleaved with edits, mk_component on the same population and mutation of '
+        'the returned tree, on diagrams with same-key-letter classes in different components')
 EXHAUSTIVE = {'quick': False, 'thorough': False}
 ASSUMPTIONS = [
     'EP_PKGREF package references (the `for ep_pkg in many(ep_pkg).EP_PKG[1402, ...]` loop of is_contained_in) are not '
@@ -170,6 +179,39 @@ def generate(ctx):
         if j % 4 == 0:
             yield {'src': 'synth', 'diagram': dd, 'comp': name, 'edits': [], 'entry': 'main',
                    'perm': r.randint(1, 1 << 30), 'nospec': True}
+    # ---- sessions: several schemas generated in ONE process from ONE loaded population - both routes on the untouched
+    #      model, then schemas of different components interleaved with edits of the population, SQL components built from
+    #      the same population (mk_component) and mutation of the tree returned last; plus two classes with the same key
+    #      letters in different components and twin identifiers
+    for j in range(ctx.pick(60, 700)):
+        r = rng.fork('session', j)
+        dd = E.gen_diagram(r, max_classes=4, special_names=(j % 4 == 0), empty_enum=True, dup_key_letters=(j % 3 != 2),
+                           twin_idents=(j % 5 == 0))
+        comps = [k['name'] for k in dd['containers'] if k['comp']]
+        if not comps:
+            continue
+        nm0 = r.choice(comps)
+        steps = [['xsd', 'build', nm0], ['xsd', 'main', nm0]]
+        cur = dd
+        for _ in range(r.randint(4, ctx.pick(7, 10))):
+            x = r.random()
+            if x < 0.4:
+                steps.append(['xsd', 'build', r.choice(comps)])
+            elif x < 0.55:
+                steps.append(['sql', r.choice(comps + [None]), r.random() < 0.5])
+            elif x < 0.7:
+                steps.append(['mutate'])
+            else:
+                e = E.gen_xedit(r, cur, _fresh_id)
+                if e is None:
+                    continue
+                cur = E.py_apply_xedit(cur, e)
+                steps.append(['edit', e])
+                if r.random() < 0.7:
+                    steps.append(['xsd', 'build', nm0 if r.random() < 0.5 else r.choice(comps)])
+        steps += [['xsd', 'build', nm0], ['xsd', 'main', nm0]]
+        yield {'src': 'synth', 'family': 'session', 'diagram': dd, 'comp': nm0, 'edits': [], 'entry': 'session',
+               'steps': steps, 'perm': r.randint(1, 1 << 30), 'audit': j % 3 == 0}
     for edits in _real_sites(d):
         i += 1
         yield {'src': 'real', 'model': 'simple', 'comp': 'Comp', 'edits': edits, 'entry': 'build',
@@ -215,6 +257,8 @@ def run_impl(case):
     def fail(sig, what):
         fails.append({'sig': sig, 'what': '%s [component=%r entry=%s edits=%s]' % (what, name, entry, json.dumps(edits))})
 
+    if case.get('family') == 'session':
+        return _run_session(case, stats)
     d1 = d0
     for e in edits:
         d1 = E.py_apply_xedit(d1, e)
@@ -316,6 +360,94 @@ def run_impl(case):
     return {'obs': obs, 'd_fail': fails[:3], 'nontrivial': nontrivial, 'key': key, 'stats': stats}
 
 
+def _session_model_steps(case):
+    out, edits = [], []
+    for st in case['steps']:
+        if st[0] == 'edit':
+            edits.append(st[1])
+        elif st[0] == 'xsd':
+            out.append([st[2], list(edits) if st[1] == 'build' else []])
+    return out
+
+
+def _mutate_tree(el):
+    """scribble over a returned ElementTree element"""
+    for sub in list(el.iter()):
+        sub.attrib['name'] = 'Zz'
+        sub.attrib['type'] = 'Zz'
+        sub.tag = 'mutated'
+    for sub in list(el):
+        el.remove(sub)
+
+
+def _run_session(case, stats):
+    import logging
+    import xml.dom.minidom
+    xtuml, gen_xsd, ooaofooa = _ctx['xtuml'], _ctx['gen_xsd'], _ctx['ooaofooa']
+    d0 = case['diagram']
+    fails, answers = [], []
+
+    def fail(sig, what, i):
+        fails.append({'sig': sig, 'what': '%s [step %d of %s]' % (what, i, json.dumps(case['steps']))})
+
+    with tempfile.TemporaryDirectory(dir=_ctx['tmp']) as tmpdir:
+        loader, path = C14._loader_for(case, tmpdir)
+        m = loader.build_metamodel()
+        if case.get('audit'):
+            C14._audit(m, d0)
+        cur, last = d0, None
+        for i, st in enumerate(case['steps']):
+            tag = 'step_' + st[0] + ('_' + st[1] if st[0] == 'xsd' else '')
+            stats[tag] = stats.get(tag, 0) + 1
+            if st[0] == 'edit':
+                E.pop_apply_xedit(m, st[1])
+                cur = E.py_apply_xedit(cur, st[1])
+                continue
+            if st[0] == 'sql':
+                c_c = m.select_any('C_C', xtuml.where_eq(Name=st[1])) if st[1] is not None else None
+                try:
+                    ooaofooa.mk_component(m, c_c, st[2])
+                except (xtuml.MetaModelException, ValueError):
+                    pass            # an open scope / an enumeration named '' : not this property's business
+                continue
+            if st[0] == 'mutate':
+                if last is not None:
+                    _mutate_tree(last)
+                    last = None
+                continue
+            _, route, name = st
+            dd = cur if route == 'build' else d0
+            comp = _comp_id(dd, name)
+            want = E.py_xsd(dd, comp)
+            if route == 'build':
+                before = E.normal_diagram(E.decode(m)) if case.get('audit') else None
+                c_c = m.select_any('C_C', xtuml.where_eq(Name=name))
+                last = gen_xsd.build_schema(m, c_c)
+                got = E.canon_xml(E.tree_of_element(last))
+                if before is not None and E.normal_diagram(E.decode(m)) != before:
+                    fail('population-modified', 'build_schema changed the ooaofooa population it was given', i)
+            else:
+                out = os.path.join(tmpdir, 'schema%d.xsd' % i)
+                try:
+                    gen_xsd.main(['-c', name, '-o', out, path])
+                finally:
+                    logging.disable(logging.CRITICAL)
+                text = open(out, encoding='utf-8').read()
+                got = E.canon_xml(E.tree_of_minidom(xml.dom.minidom.parseString(text.encode('utf-8')).documentElement))
+            answers.append(['ok', got])
+            for sig, what in _independent(got, dd, comp):
+                fail(sig, what, i)
+            if not fails and got != want:
+                fail('session:' + _diff(got, want), 'route %s, component %r: the generated schema is %s, the class model (as '
+                     'edited so far) specifies %s' % (route, name, json.dumps(got), json.dumps(want)), i)
+            if fails:
+                break
+    stats['session_schemas'] = len(answers)
+    key = hashlib.sha1(json.dumps(case, sort_keys=True, default=str).encode()).hexdigest()
+    return {'obs': ['session', answers], 'd_fail': fails[:3], 'key': key, 'stats': stats,
+            'nontrivial': len({json.dumps(a) for a in answers}) > 1}
+
+
 def _independent(tree, d, comp):
     """two oracles that need no type mapping at all: (1) exactly one element per class contained in the component,
     also for a class without any declarable attribute; (2) every declared attribute is typed by the name of a core
@@ -379,12 +511,18 @@ def _diff(got, want):
 
 def model_line(case):
     d = C14._diagram_of(case)
+    if case.get('family') == 'session':
+        return dumps([Sym('c20-session'), E.diagram_sexp(d),
+                      [[nm, [E.xedit_sexp(e) for e in es]] for nm, es in _session_model_steps(case)]])
     if case['entry'] == 'text':
         return dumps([Sym('c20-text'), E.diagram_sexp(d), case['comp']])
     return dumps([Sym('c20'), E.diagram_sexp(d), case['comp'], [E.xedit_sexp(e) for e in case['edits']]])
 
 
 def model_obs(case, ans):
+    if case.get('family') == 'session':
+        return ['session', [['ok', E.canon_xml(E.tree_of_sexp(a[1]))] if a[0] == 'ok' else ['error', str(a[1])]
+                            for a in ans]]
     if ans[0] == 'error':
         return ['error', str(ans[1])]
     if case['entry'] == 'text':
@@ -408,6 +546,14 @@ def shrink_candidates(case):
         c['edits'] = edits[:i] + edits[i + 1:]
         yield c
     if case['src'] != 'synth':
+        return
+    if case.get('family') == 'session':
+        steps = case['steps']
+        for i in range(len(steps)):
+            if steps[i][0] != 'edit':
+                c = dict(case)
+                c['steps'] = steps[:i] + steps[i + 1:]
+                yield c
         return
     for c in C14.shrink_candidates(dict(case, edits=[e for e in edits if e[0] in ('rename', 'retype', 'move-class')])):
         if c.get('diagram') is not case.get('diagram'):
